@@ -262,8 +262,8 @@ ADDENDA = {
 
 # fourth round
 ADDENDA2 = {
-    "C01": " D4.tree also covers dropping the needed points of a grid without loaded points (F86).",
-    "C04": " D6.tree as in C01 (F86).",
+    "C01": " D4.tree also covers dropping the needed points of a grid without loaded points (F86). Added: D10.restart (dependence analysis of the GMRES restart loop: every cycle starts from the residual of the current iterate, the iterate changes only through the Krylov reconstruction, F88).",
+    "C04": " D6.tree as in C01 (F86). Added: D11.restart (as C01-D10, F88: the transposed solve behind the weights), D12.vandermonde (entries of the Kronecker 1-D matrices are values of the basis evaluate() uses).",
     "C06": " Added: D6 orders precision(17) before every floating point field; D12.nodes (Sequence node cache covers every converted index set); D13.perdim (per-dimension members rebuilt only from a non-empty set, F85).",
     "C07": " Added: D9.norm for the Sequence grid (NaN-seeded running maximum, F74); D10.alloutputs (monotone accumulation over outputs); D11.limits (C08-D1.store shared).",
     "C09": " Added: D10.keep (registrations with delivered samples survive a request for candidates, F81); D11.nodes; D4.relations now evaluates the relations getSubGraph walks (F24 fixed).",
